@@ -312,7 +312,7 @@ def run(ctx):
             ctx.cov["traces_validated_against_impl"] += sum(len(r["frames"]) for r in part)
         if nbad > 5:
             ctx.broken.append(("correspondence: %d cases disagree in total" % nbad, ""))
-    if ctx.broken and not ctx.findings and ws and os.path.exists(os.path.join(verif.ROOT, "harness", "bin", "c03")):
+    if ctx.broken and not ctx.findings and ws and os.path.exists(os.path.join(verif.HBIN, "c03")):
         ok, _ = ctx.harness_run("c03", ["-out", "search.jsonl", "-seed", ctx.seed + 1000, "-n", 4000, "-per", 12,
                                         "-wiring", os.path.join(ctx.work, "wiring.json")], timeout=3000)
         if ok:
